@@ -141,7 +141,7 @@ P("cfg_btn_press_count", CFG_BTN_PRESS_COUNT);
     m2 = re.findall(r"devconn->server_activity_timeout-(\d+)\)", dv)
     if not m1 or len(m2) != 2 or m2[0] != m2[1]:
         raise ExtractError("timer1_cb: window literals not recognised")
-    g = run_probe("p_wd", 'P("wd_timeout", WATCHDOG_TIMEOUT_SEC); P("wd_soft", WATCHDOG_SOFT_TIMEOUT_SEC); P("mqtt_recvbuf", MQTT_RECVBUF_SIZE); P("at_hold", BTN_HOLD_TIME_MS); P("at_multi", BTN_MULTICLICK_TIME_MS); P("at_caps", SUPLA_ACTION_CAP_TURN_ON + 3 * SUPLA_ACTION_CAP_TURN_OFF + 5 * SUPLA_ACTION_CAP_TOGGLE_x1 + 7 * SUPLA_ACTION_CAP_TOGGLE_x5 + 11 * SUPLA_ACTION_CAP_HOLD + 13 * SUPLA_ACTION_CAP_SHORT_PRESS_x1 + 17 * SUPLA_ACTION_CAP_SHORT_PRESS_x5); P("at_types", INPUT_TYPE_BTN_MONOSTABLE * 100 + INPUT_TYPE_BTN_BISTABLE);',
+    g = run_probe("p_wd", 'P("wd_timeout", WATCHDOG_TIMEOUT_SEC); P("wd_soft", WATCHDOG_SOFT_TIMEOUT_SEC); P("mqtt_recvbuf", MQTT_RECVBUF_SIZE); P("cd_t2count", STATE_CFG_TIME2_COUNT); P("at_hold", BTN_HOLD_TIME_MS); P("at_multi", BTN_MULTICLICK_TIME_MS); P("at_caps", SUPLA_ACTION_CAP_TURN_ON + 3 * SUPLA_ACTION_CAP_TURN_OFF + 5 * SUPLA_ACTION_CAP_TOGGLE_x1 + 7 * SUPLA_ACTION_CAP_TOGGLE_x5 + 11 * SUPLA_ACTION_CAP_HOLD + 13 * SUPLA_ACTION_CAP_SHORT_PRESS_x1 + 17 * SUPLA_ACTION_CAP_SHORT_PRESS_x5); P("at_types", INPUT_TYPE_BTN_MONOSTABLE * 100 + INPUT_TYPE_BTN_BISTABLE);',
                   includes_c=["supla_esp.h"])
     g.update({"ka_reconnect": m1.group(1), "ka_window": m2[0]})
     cd = open(os.path.join(C.REPO, "src/user/supla_esp_countdown_timer.c")).read()
@@ -278,6 +278,8 @@ def emit_consts():
         "def atMultiMs : Nat := %s" % k["at_multi"],
         "/-- the SUPLA_ACTION_CAP_* bits and input type codes Model/InputAt hard-codes -/",
         "theorem at_caps_ok : (%s, %s) = (1 + 3 * 2 + 5 * 4 + 7 * 64 + 11 * 1024 + 13 * 2048 + 17 * 32768, 204) := by decide" % (k["at_caps"], k["at_types"]),
+        "/-- STATE_CFG_TIME2_COUNT: entries of supla_esp_state.Time2Left -/",
+        "def cdT2Count : Nat := %s" % k["cd_t2count"],
         "def cdParams : CdParams := { minP := %s, maxP := %s, div := %s }" % (k["cd_min"], k["cd_max"], k["cd_div"]),
         "def cfgLayout : CfgLayout := { recLen := %s, guidLen := %s, authLen := %s, tag := [83, 85, 80, 76, 65, 7] }" % (
             k["cfg_len"], k["cfg_guid"], k["cfg_auth"]),
